@@ -4,6 +4,7 @@ import MosnVerif.Drive.C12
 import MosnVerif.Model.ConfigCodec
 import MosnVerif.Model.ConfigDir
 import MosnVerif.Model.ConfigPairs2
+import MosnVerif.Model.ConfigCb
 import MosnVerif.Drive.C19Order
 /-!
 Driver of C19.  `<esc>` = every byte outside [A-Za-z0-9_.-] as %XX; JSON is compared key-sorted and compact.
@@ -20,6 +21,9 @@ Driver of C19.  `<esc>` = every byte outside [A-Za-z0-9_.-] as %XX; JSON is comp
 `sample <esc path> => unloadable:<why> | ok:<h1>:<h2>:lost<n>`  hashes of the key-sorted, name-sorted first and second dump, and
                                                                  the number of scalars of the input the first dump no longer has
 `gen <n> => unloadable:<why> | ok:<h1>:<h2>:lost<n>`            the same for a generated configuration.
+`cbeff <esc circuit_breakers wire> => ok:<entries>/<connections,pending,requests,retries>:<the same after dump and reload> | err`
+     a cluster document with these circuit_breakers decoded, built with cluster.NewCluster (limits of its resource
+     manager), marshalled, decoded and built again; predicate: both halves are equal
 `dynpair cl|vh init=<hex file names> items=<hex name>.<id>,… n=<dumps> => ok:<hex file names after the dump, sorted>:<items read back, sorted> | fail:<stage>`
      `ClusterManagerConfig` / `RouterConfiguration` in directory mode, items in this order (clock stamps shown as T<k>);
      model: `marshalDynamic` / `unmarshalDynamic` with the regenerated file-name operations.
@@ -187,6 +191,24 @@ def run (caseToks impl : List String) : String :=
   | ["pair", "cb", w] =>
     match shapeOf "Thresholds", getJson w, implPair impl with
     | some th, some w, some im => verdict (cycle2 (cbU th) (cbM th) w) im
+    | _, _, _ => "E E bad-case"
+  -- effective circuit-breaker thresholds before the dump and after the reload (Model/ConfigCb.lean)
+  | ["cbeff", w] =>
+    match shapeOf "Thresholds", getJson w, impl with
+    | some th, some w, [t] =>
+      let tok (x : CVal) : String :=
+        s!"{(ConfigCb.entries x).length}/{",".intercalate ((ConfigCb.effective x).map toString)}"
+      let model := (match cbU th w with
+        | none => "err"
+        | some x => (match cbU th (cbM th x) with
+          | some y => s!"ok:{tok x}:{tok y}"
+          | none => s!"ok:{tok x}:reload-fails"))
+      -- predicate: the cluster built from the reloaded dump has the limits (and the entries) of the running one
+      let spec := (match t.splitOn ":" with
+        | ["err"] => true
+        | ["ok", a, b] => a == b
+        | _ => false)
+      s!"{if model == t then "A" else "D"} {if spec then "S" else "V"} {model}"
     | _, _, _ => "E E bad-case"
   | ["pair", "ln", w, oracle] =>
     match embFields "ListenerConfig", getJson w, implPair impl, parseOracle oracle with
